@@ -85,6 +85,8 @@ type scenario struct {
 	FaultOp     string     `json:"fault_op,omitempty"`      // fault: back-end operation that fails (f.Write, f.Close, MkdirAll, Chtimes, OpenFile, ...)
 	FaultK      int        `json:"fault_k,omitempty"`       // fault: the k-th such operation (0-based)
 	Lose        bool       `json:"fault_loses_data,omitempty"` // fault: the failing Close also loses the file's data (delayed allocation)
+	Announced   int        `json:"announced,omitempty"`        // size-lie: bytes Stat announces for d/payload.bin
+	Served      int        `json:"served,omitempty"`           // size-lie: bytes Open really serves
 }
 
 func (n nodeSpec) content() []byte {
@@ -1868,6 +1870,67 @@ func faultSweep(r *h.Run, tree []nodeSpec, all bool) {
 	r.Distinct(fmt.Sprintf("fault|%v", tree))
 }
 
+// ---------------------------------------------------------------- a back end that announces one size and serves another
+
+type lieInfo struct {
+	os.FileInfo
+	size int64
+}
+
+func (l lieInfo) Size() int64 { return l.size }
+
+// sizeLieFs: Stat of `target` announces `size` bytes; Open serves the bytes that are really there (fewer: the file was cut
+// short between the walk and the copy / early EOF; more: it grew).
+type sizeLieFs struct {
+	afero.Fs
+	target string
+	size   int64
+}
+
+func (l *sizeLieFs) Stat(name string) (os.FileInfo, error) {
+	fi, err := l.Fs.Stat(name)
+	if err == nil && filepath.Clean(name) == l.target {
+		return lieInfo{fi, l.size}, nil
+	}
+	return fi, err
+}
+
+// runSizeLie: Zip of a tree in which one file announces `announced` bytes and serves `served`.
+// Oracle: when they differ Zip must not report success (any error kind).
+func runSizeLie(r *h.Run, announced, served int) {
+	r.Eval()
+	worldSeq++
+	m := afero.NewMemMapFs()
+	base := fmt.Sprintf("/s%d", worldSeq)
+	src, archive, target := base+"/src", base+"/a.zip", base+"/src/d/payload.bin"
+	tree := []nodeSpec{d("d", t0), nodeSpec{Rel: "d/payload.bin", Size: served, Seed: int64(announced)*7919 + int64(served), MTime: t0 + 1e9}, t("d/other", "other", t0+2e9), t("top", "top", t0+3e9)}
+	if served == 0 {
+		tree[1] = t("d/payload.bin", "", t0+1e9)
+	}
+	w := &world{raw: m, base: base}
+	if err := w.build(src, tree); err != nil {
+		r.Count("skipped:build-error")
+		return
+	}
+	lie := &sizeLieFs{Fs: m, target: target, size: int64(announced)}
+	fs := filesystem.NewVirtualFileSystem(lie, filesystem.InMemoryFS, filesystem.IdentityPathConverterFunc)
+	err := fs.Zip(src, archive)
+	sc := scenario{Kind: "size-lie", Backend: "mem", Announced: announced, Served: served}
+	r.Count(fmt.Sprintf("size-lie:%s:err=%v", map[bool]string{true: "same", false: map[bool]string{true: "short", false: "long"}[served < announced]}[announced == served], err != nil))
+	r.Case(fmt.Sprintf("(CZipSize %s %s %s)", h.Z(int64(announced)), h.Z(int64(served)), h.Bool(err == nil)), sc)
+	switch {
+	case announced != served && err == nil:
+		dir := "more"
+		if served < announced {
+			dir = "fewer"
+		}
+		r.Fail("zip-size-mismatch-accepted:"+dir, fmt.Sprintf("a source file announced %d bytes and served %d (%s bytes than announced, no read error) and Zip returned nil: the archive does not hold what the tree announced", announced, served, dir), sc)
+	case announced == served && err != nil:
+		r.Fail("roundtrip-zip-error:"+errKind(err), "Zip of a consistent tree through the size wrapper failed: "+err.Error(), sc)
+	}
+	r.Distinct(fmt.Sprintf("size-lie|%d|%d", announced, served))
+}
+
 // ---------------------------------------------------------------- generators
 
 var nameAtoms = []string{
@@ -2168,6 +2231,8 @@ func runScenario(r *h.Run, sc scenario, emit bool) {
 		runClosed(r, sc, emit)
 	case "fault":
 		runFault(r, sc)
+	case "size-lie":
+		runSizeLie(r, sc.Announced, sc.Served)
 	}
 }
 
@@ -2266,6 +2331,10 @@ func main() {
 	// fault sweeps: a tree with a file large enough for several writes, an empty file, nested and empty directories
 	faultTree := append(append([]nodeSpec{}, corpus["basic"]...), nodeSpec{Rel: "d1/payload.bin", Size: 65536 + 17, Seed: 7, MTime: t0 + 23e9}, nodeSpec{Rel: "d1/d2/text.txt", Size: 40000, Seed: 9, Comp: true, MTime: t0 + 29e9})
 	faultSweep(r, faultTree, r.Thorough() || r.Deep)
+	// announced size vs served bytes: both directions, several sizes and cut points (65536 spans several copy buffers)
+	for _, p := range [][2]int{{65536, 65536}, {65536, 1000}, {65536, 0}, {65536, 65535}, {65536, 32768}, {1000, 65536}, {65535, 65536}, {0, 1}, {1, 0}, {1, 1}, {100, 99}, {99, 100}, {40000, 32769}, {32768, 40000}} {
+		runSizeLie(r, p[0], p[1])
+	}
 	for i, es := range rawCorpus {
 		runScenario(r, scenario{Kind: "raw", Backend: []string{"os", "mem"}[i%2], Raw: es}, true)
 	}
